@@ -14,6 +14,13 @@ func br(desc map[string]any, x, cm, z []uint64, e []byte, el int) map[string]any
 	return map[string]any{"P": desc, "x": x, "cm": cm, "z": z, "e": bytesToInts(e), "el": el}
 }
 
+// exactCopy returns a copy whose capacity equals its length (what a decoder produces).
+func exactCopy(b []byte) []byte {
+	out := make([]byte, len(b))
+	copy(out, b)
+	return out
+}
+
 func flipBit(b []byte, i int) []byte {
 	out := append([]byte(nil), b...)
 	out[i/8] ^= 1 << (i % 8)
@@ -43,7 +50,7 @@ func andLevel(n int, cases int, seed uint64) {
 		log := func(variant string, zz sigand.Response[schZ], aa sigand.Commitment[schA], ee []byte) {
 			brs := []map[string]any{}
 			for i := range xs {
-				var cm, zi []uint64
+				cm, zi := []uint64{}, []uint64{}
 				if i < len(aa) {
 					cm = sp.PA(aa[i])
 				}
@@ -54,7 +61,7 @@ func andLevel(n int, cases int, seed uint64) {
 			}
 			err, pan := guard(func() error { return and.Verify(x, aa, ee, zz) })
 			emit("and", map[string]any{"tag": "and-schnorr", "variant": variant, "brs": brs, "e": bytesToInts(ee),
-				"lens": []int{len(x), len(aa), len(zz)}, "ok": err == nil && pan == "", "panic": pan != ""})
+				"lens": []int{len(x), len(aa), len(zz)}, "ok": err == nil && pan == "", "panic": pan != "", "panicmsg": pan})
 		}
 		log("honest", z, a, e)
 		for j := 0; j < n; j++ { // one conjunct's response altered
@@ -92,7 +99,7 @@ func andLevel(n int, cases int, seed uint64) {
 			brs := []map[string]any{br(ec.Desc, ec.PX(x.X0), ec.PA(a.A0), ec.PZ(z0), nil, cl), br(sh.Desc, sh.PX(x.X1), sh.PA(a.A1), sh.PZ(z1), nil, cl)}
 			err, pan := guard(func() error { return ep.Verify(x, a, ee, zz) })
 			emit("and", map[string]any{"tag": "elog", "variant": variant, "brs": brs, "e": bytesToInts(ee), "lens": []int{2, 2, 2},
-				"ok": err == nil && pan == "", "panic": pan != ""})
+				"ok": err == nil && pan == "", "panic": pan != "", "panicmsg": pan})
 		}
 		log("honest", z.Z0, z.Z1, e)
 		alt0 := ec.PZ(z.Z0)
@@ -131,7 +138,7 @@ func orLevel(n int, cases int, seed uint64) {
 		log := func(variant string, aa sigor.Commitment[schA], zz *sigor.Response[schZ], ee []byte) {
 			brs := []map[string]any{}
 			for i := range xs {
-				var zi []uint64
+				zi := []uint64{}
 				var ei []byte
 				if i < len(zz.Z) {
 					zi = sp.PZ(zz.Z[i])
@@ -143,7 +150,7 @@ func orLevel(n int, cases int, seed uint64) {
 			}
 			err, pan := guard(func() error { return or.Verify(x, aa, ee, zz) })
 			emit("or", map[string]any{"tag": "or-schnorr", "variant": variant, "brs": brs, "e": bytesToInts(ee), "cl": cl,
-				"lens": []int{len(x), len(aa), len(zz.E), len(zz.Z)}, "ok": err == nil && pan == "", "panic": pan != ""})
+				"lens": []int{len(x), len(aa), len(zz.E), len(zz.Z)}, "ok": err == nil && pan == "", "panic": pan != "", "panicmsg": pan})
 		}
 		cp := func() *sigor.Response[schZ] {
 			r := &sigor.Response[schZ]{E: make([][]byte, n), Z: append([]schZ{}, z.Z...)}
@@ -167,7 +174,7 @@ func orLevel(n int, cases int, seed uint64) {
 		t3.Z[b] = sp.MkZ([]uint64{(sp.PZ(z.Z[b])[0] + 1 + rnd.Uint64N(q-1)) % q})
 		log("resp", a, t3, e)
 		t4 := cp()
-		t4.E[j] = t4.E[j][:cl-1]
+		t4.E[j] = exactCopy(t4.E[j][:cl-1])
 		log("short", a, t4, e)
 		sa, sz := must2(or.RunSimulator(x, e))
 		log("sim", sa, sz, e)
@@ -220,7 +227,7 @@ func orCart[X0 sigma.Statement, W0 sigma.Witness, A0 sigma.Statement, S0 sigma.S
 			brs := []map[string]any{br(p0.Desc, p0.PX(x0), p0.PA(aa.A0), p0.PZ(zz.Z0), zz.E0, l0), br(p1.Desc, p1.PX(x1), p1.PA(aa.A1), p1.PZ(zz.Z1), zz.E1, l1)}
 			err, pan := guard(func() error { return or.Verify(x, aa, ee, zz) })
 			emit("or", map[string]any{"tag": tag, "variant": variant, "brs": brs, "e": bytesToInts(ee), "cl": cl,
-				"lens": []int{2, 2, 2, 2}, "ok": err == nil && pan == "", "panic": pan != ""})
+				"lens": []int{2, 2, 2, 2}, "ok": err == nil && pan == "", "panic": pan != "", "panicmsg": pan})
 		}
 		cp := func() *sigor.ResponseCartesian[Z0, Z1] {
 			return &sigor.ResponseCartesian[Z0, Z1]{E0: append([]byte(nil), z.E0...), E1: append([]byte(nil), z.E1...), Z0: z.Z0, Z1: z.Z1}
@@ -237,7 +244,7 @@ func orCart[X0 sigma.Statement, W0 sigma.Witness, A0 sigma.Statement, S0 sigma.S
 		if e[cl-1] == 0 {
 			// a sub-challenge one byte short whose missing byte would not have mattered for the combination
 			t3 := cp()
-			t3.E0 = t3.E0[:cl-1]
+			t3.E0 = exactCopy(t3.E0[:cl-1])
 			t3.E1[cl-1] = 0
 			log("short", a, t3, e)
 		}
